@@ -28,6 +28,8 @@ def rule(unit, fn, arm, kinds, pids):
 # values
 for a in I64_EXACT_ARMS:
     rule('i64-ast', 'eval', a, ['post', 'invariant', 'assert'], ['C06'])
+for a in ['Add', 'Subtract', 'Multiply', 'Divide', 'Modulo', 'Pow', 'Negative', 'Abs', 'Sign', 'Factorial', 'Min', 'Max']:
+    rule('i64-ast', 'eval', a, ['post', 'invariant', 'assert'], ['C15'])
 for a in I64_FUNC_ARMS:
     rule('i64-ast', 'eval', a, ['post', 'invariant', 'assert'], ['C10'])
 for a in I64_AGG_ARMS:
@@ -64,9 +66,9 @@ def owners(unit, fn, arm, kind=None):
 # ---- the five parsers (units <stack>-parser) ---------------------------------------------------------
 VAL = ['post', 'invariant', 'assert', 'precond']      # a failed callee precondition inside a parser method = wrong call shape
 P = '*-parser'
-rule(P, 'get_oper_prec', '*', VAL, ['C04', 'C17'])
+rule(P, 'get_oper_prec', '*', VAL, ['C04', 'C17', 'C15'])
 rule(P, 'generate_ast', '*', VAL, ['C04', 'C03', 'C20', 'C17'])
-rule(P, 'parse', '*', VAL, ['C03', 'C12'])
+rule(P, 'parse', '*', VAL, ['C03', 'C12', 'C15'])
 rule(P, 'check_paren', '*', VAL, ['C03', 'C04'])
 rule(P, 'function_static_arguments', '*', VAL, ['C03', 'C10'])
 rule(P, 'function_arguments', '*', VAL, ['C03', 'C11'])
@@ -141,3 +143,14 @@ for arm in ("Some('0'..='9')", "Some('.')"):
 rule('number-tok', 'next', "Some('0'..='9')", ['post', 'invariant', 'assert'], ['C09'])
 for arm in ("Some('0'..='9')", "Some('.')", "Some('i')"):
     rule('complex-tok', 'next', arm, ['post', 'invariant', 'assert'], ['C08'])
+
+
+# ---- the public wrappers (units <stack>-glue): strip whitespace, Some(placeholder), value returned unchanged, Err iff no parse
+G = '*-glue'
+rule(G, 'eval_*', '*', ['post', 'precond', 'assert'], ['C13', 'C14', 'C03', 'C20'])
+rule('f64-glue', 'eval_*', '*', ['post', 'precond', 'assert'], ['C05'])
+rule('number-glue', 'eval_*', '*', ['post', 'precond', 'assert'], ['C09'])
+rule('decimal-glue', 'eval_*', '*', ['post', 'precond', 'assert'], ['C07'])
+rule('complex-glue', 'eval_*', '*', ['post', 'precond', 'assert'], ['C08'])
+rule(G, '*', '*', ['overflow', 'divzero', 'shift', 'index'], ['C01'])
+rule(G, '*', '*', ['decreases'], ['C02'])
